@@ -349,6 +349,63 @@ def loop_breaks(fn):
     return out
 
 
+def char_predicate_set(c):
+    """for a closure of the shape `|ch| matches!(ch, 'a' | 'b' | ..)` (one switch on its char argument, constant
+    true / false results): the set of characters it accepts; None for any other shape"""
+    blocks = [b for b in sorted(c.normal_blocks())]
+    if not blocks or c.blocks[blocks[0]]["t"]["k"] != "switch":
+        return None
+    t = c.blocks[blocks[0]]["t"]
+    if not re.match(r"^arg:\w+$", c.expr_operand(t["discr"])):
+        return None
+
+    def const_result(b):
+        seen = 0
+        while seen < 4:
+            blk = c.blocks[b]
+            vals = [c.expr_rvalue(st["rv"]) for st in blk["s"] if st["k"] == "assign" and st["pl"]["l"] == 0 and not st["pl"]["p"]]
+            if vals:
+                return vals[-1]
+            if blk["t"]["k"] != "goto":
+                return None
+            b = blk["t"]["t"]
+            seen += 1
+        return None
+    other = const_result(t["otherwise"]) if t.get("otherwise") is not None else None
+    acc = set()
+    for v, tg in t["targets"]:
+        r = const_result(tg)
+        if r not in ("true", "false"):
+            return None
+        if r == "true":
+            acc.add(chr(v))
+    if other != "false":
+        return None
+    if any(c.blocks[b]["t"]["k"] == "call" for b in blocks):
+        return None
+    return acc
+
+
+def unrecorded_iterations(fn, next_rx, record, expr_rx=None):
+    """For the `for` loop driven by the `next()` call matching `next_rx`: the back edges (`continue`, or the end of
+    the body) that can be reached in an iteration without passing a block accepted by `record(block_index, terminator)`
+    -- i.e. ways of going on to the next element without having recorded the current one. Returning from the
+    function (rejecting the whole input) is not a back edge. Decided by dominance: a skipping path in any iteration
+    exists in the first one too, and then the recording block does not dominate the back-edge source.
+    -> (number of back edges, [loc of each unrecorded one]) or None when the loop is not found"""
+    loops = natural_loops(fn)
+    heads = [b for b, t in fn.calls(next_rx) if (loop_of_iteration(fn, loops, b) or (None,))[0] == b
+             and (expr_rx is None or re.search(expr_rx, fn.expr_call(t)))]
+    if len(heads) != 1:
+        return None
+    h = heads[0]
+    body = dict(loops)[h]
+    rec = [b for b in body if fn.blocks[b]["t"]["k"] == "call" and record(b, fn.blocks[b]["t"])]
+    back = [u for u in body if h in fn.succ(u)]
+    bad = [fn.loc(u) for u in back if not any(fn.dominates(r, u) for r in rec)]
+    return len(back), bad
+
+
 def walk_decisions(fn, start, stops, render=None, limit=64):
     """Follows the CFG from block `start`, branching at every switch, until a block of `stops` (block -> label) is
     reached: [(conds, label)] with conds = {rendered discriminant: value} (`else` arms of 0/1 switches are rendered as
